@@ -510,6 +510,9 @@ impl<'a> LiveEvents<'a> {
                     if !exists {
                         return Err(Error::unknown_anchor().with_location(location));
                     }
+                    if let Some(budget) = self.budget.as_mut() {
+                        budget.alias_will_be_replayed();
+                    }
                     self.inject.push(InjectFrame {
                         anchor_id,
                         idx: 0,
